@@ -7,11 +7,22 @@ import subprocess
 from . import driver as D
 
 
-def build_all(prop, P):
+def build_all(prop, P, tolerate=False):
+    """Build every binary of the property.  With tolerate=True a binary that does not build is returned as None
+    (the caller decides, with the compile probes, whether that is a verdict or a harness error)."""
     bins = []
+    errors = []
     for b in P["binaries"]:
-        bins.append(D.build(b["name"], b["sources"], b.get("libs", []), b.get("flavour", "asan"),
-                            b.get("extra_flags", ()), b.get("link_flags", ()), b.get("hook_libs", ()), b.get("hook_sources", ())))
+        try:
+            bins.append(D.build(b["name"], b["sources"], b.get("libs", []), b.get("flavour", "asan"),
+                                b.get("extra_flags", ()), b.get("link_flags", ()), b.get("hook_libs", ()), b.get("hook_sources", ())))
+        except D.BuildError as e:
+            if not tolerate:
+                raise
+            bins.append(None)
+            errors.append(str(e))
+    if tolerate:
+        return bins, errors
     return bins
 
 
@@ -44,17 +55,17 @@ def compile_probes(prop, P):
 
 def run(prop, P, tier, seed, replay, extra):
     build_failure = None
-    try:
-        bins = build_all(prop, P)
-    except D.BuildError as e:
-        # The library no longer compiles under the harness.  If one of the registered compile probes (public uses
-        # that must compile) fails too, that probe is the verdict; otherwise it is a harness error.
+    bins, build_errors = build_all(prop, P, tolerate=True)
+    if build_errors:
+        # The library no longer compiles under (part of) the harness.  If one of the registered compile probes (public
+        # uses that must compile) fails too, that probe is a verdict and the binaries that did build are still run;
+        # otherwise it is a harness error.
         pv0, _ = compile_probes(prop, P)
         if not pv0 or replay:
-            raise
-        build_failure = str(e)
-        bins = []
-        print("note: the harness binaries do not build against this tree; reporting the failing compile probes only")
+            raise D.BuildError("\n".join(build_errors))
+        build_failure = "\n".join(build_errors)
+        print("note: %d of %d harness binaries do not build against this tree; failing compile probes are reported, the other binaries are run" %
+              (len(build_errors), len(bins)))
     if replay:
         r = json.load(open(replay))
         if r.get("shard") == "compile_probe":
@@ -76,6 +87,8 @@ def run(prop, P, tier, seed, replay, extra):
     wall = 0.0
     harness_error = None
     for bi, binary in enumerate(bins):
+        if binary is None:
+            continue
         rc, out, res, w = D.run_harness(prop, binary, tier, seed, deadline, extra)
         wall += w
         if res is None:
@@ -113,7 +126,8 @@ def run(prop, P, tier, seed, replay, extra):
 
     n_unlisted, n_known = D.judge(prop, all_viol, {"tier": tier})
     if build_failure is not None:
-        # nothing ran: there is no coverage to describe; the verdict is the failing compile probe(s)
+        # (part of) the harness did not build: coverage is incomplete, no evidence is written; the verdict is the failing
+        # compile probe(s) together with whatever the binaries that did build reported
         print("%s: harness binaries did not build against this tree; %d compile probe violation(s) unlisted, %d known" % (prop, n_unlisted, n_known))
         return 1 if n_unlisted else 2
 
